@@ -44,6 +44,17 @@ func tText(c context, s []byte) (context, int) {
 		} else if i+4 <= len(s) && bytes.Equal(commentStart, s[i:i+4]) {
 			// A comment does not end the content of the element it is in.
 			return context{state: stateHTMLCmt, element: c.element}, i + 4
+		} else if i+len(doctypeBytes) <= len(s) && bytes.EqualFold(doctypeBytes, s[i:i+len(doctypeBytes)]) {
+			// A browser reads a DOCTYPE up to the first ">": there are no tags in it.
+			end := bytes.IndexByte(s[i:], '>')
+			if end < 0 {
+				return context{
+					state: stateError,
+					err:   errorf(ErrBadHTML, nil, 0, "unfinished <!DOCTYPE: %.32q", s[i:]),
+				}, len(s)
+			}
+			k = i + end + 1
+			continue
 		}
 		i++
 		end := false
